@@ -5,11 +5,21 @@ module S = Stdlib.String
 
 let rid_tbl : (string, int) Hashtbl.t = Hashtbl.create 64
 let rid_names : (int, string) Hashtbl.t = Hashtbl.create 64
+(* "NqK" (resource N with query q=K) is interned as 10000 + 100*N + K *)
+let qparts (s : string) : (int * int) option =
+  match S.index_opt s 'q' with
+  | Some i when i > 0 ->
+    (match int_of_string_opt (S.sub s 0 i), int_of_string_opt (S.sub s (i + 1) (S.length s - i - 1)) with
+     | Some n, Some k when n >= 0 && n < 90 && k >= 0 && k < 100 -> Some (n, k)
+     | _ -> None)
+  | _ -> None
 let rid_of (s : string) : Datatypes.nat =
   let n = (match int_of_string_opt s with
     | Some n when n >= 0 && n < 1000 -> n
-    | _ -> (try Hashtbl.find rid_tbl s with Not_found ->
-              let n = 1000 + Hashtbl.length rid_tbl in Hashtbl.add rid_tbl s n; n)) in
+    | _ -> (match qparts s with
+        | Some (n, k) -> 10000 + 100 * n + k
+        | None -> (try Hashtbl.find rid_tbl s with Not_found ->
+              let n = 1000 + Hashtbl.length rid_tbl in Hashtbl.add rid_tbl s n; n))) in
   Hashtbl.replace rid_names n s; nat_of_int n
 let rid_name (n : int) : string = try Hashtbl.find rid_names n with Not_found -> string_of_int n
 
@@ -85,6 +95,7 @@ let parse_file (path : string) : Trace.tev list * stats =
   let push e = out := e :: !out; linenos := st.lines :: !linenos in
   let inq = ref false and truth = ref [] and subs = ref [] and ents = ref [] and qfinal = ref false in
   let reqtab : (int, Datatypes.nat) Hashtbl.t = Hashtbl.create 64 in
+  let qreq : (int, string) Hashtbl.t = Hashtbl.create 16 in
   let tok_of (s : string) : Datatypes.nat =
     if s = "-" then nat_of_int 0
     else if S.length s > 1 && S.get s 0 = 't' then (match int_of_string_opt (S.sub s 1 (S.length s - 1)) with Some n -> nat_of_int (n + 1) | None -> nat_of_int (100 + other_of s))
@@ -133,6 +144,8 @@ let parse_file (path : string) : Trace.tev list * stats =
         | ["MQSUB"; "conn"; c] when S.length c > 1 && (S.get c 0 = 'c' || S.get c 0 = 'h') -> push (Trace.TConnSub (conn_of c))
         | ["MQUNSUB"; "conn"; c] when S.length c > 1 && (S.get c 0 = 'c' || S.get c 0 = 'h') -> push (Trace.TConnUnsub (conn_of c))
         | ["EVICT"; r] -> push (Trace.TEvict (rid_of r))
+        | ["QVARIANTS"; b; vs] -> push (Trace.TQVariants (rid_of b, L.map rid_of (split_on ',' vs)))
+        | ["QVARIANTS"; b] -> push (Trace.TQVariants (rid_of b, []))
         | ["CONNEV"; c; "token"; tok; _] -> push (Trace.TConnToken (conn_of c, tok_of tok))
         | ["SYSEV"; "reset"; which; pats] ->
           let pats = L.map chars_of_string (S.split_on_char ',' (unhex pats)) in
@@ -155,12 +168,26 @@ let parse_file (path : string) : Trace.tev list * stats =
                                   && S.get txt (i+2) >= '0' && S.get txt (i+2) <= '9' then leak := true) txt;
           push (Trace.TRawOut (conn_of c, !leak))
         | "MQREQ" :: n :: typ :: r :: meth :: cid :: tok :: _ ->
-          let t = (match typ with "get" -> Trace.MGet | "access" -> Trace.MAccess | "call" -> Trace.MCall | "auth" -> Trace.MAuth | _ -> Trace.MOtherReq) in
+          let t = (match typ with "get" -> Trace.MGet | "access" -> Trace.MAccess | "call" -> Trace.MCall | "auth" -> Trace.MAuth | "query" -> Trace.MQuery | _ -> Trace.MOtherReq) in
+          if typ = "query" then Hashtbl.replace qreq (int_of_string n) r;
           let c = if S.length cid > 1 && (S.get cid 0 = 'c' || S.get cid 0 = 'h') then Some (conn_of cid) else None in
           Hashtbl.replace reqtab (int_of_string n) (rid_of r);
           push (Trace.TMqReq (nat_of_int (int_of_string n), t, rid_of r, c, tok_of tok, chars_of_string (if meth = "-" then "" else meth)))
         | "MQRESP" :: n :: rest ->
           let r = (try Hashtbl.find reqtab (int_of_string n) with Not_found -> nat_of_int 999) in
+          (* a get answered under a normalised query: the loaded variant is the normalised one *)
+          let r = (match L.find_opt (fun f -> S.length f > 5 && S.sub f 0 5 = "norm=") rest with
+                   | Some f -> rid_of (S.sub f 5 (S.length f - 5)) | None -> r) in
+          let rest = L.filter (fun f -> not (S.length f > 5 && S.sub f 0 5 = "norm=")) rest in
+          (match Hashtbl.find_opt qreq (int_of_string n) with
+           | Some v ->
+             (* every client-side id that aliases the answered variant (q=K with the same K mod 2) *)
+             (match qparts v with
+              | Some (nn, k) ->
+                let aliases = L.filter_map (fun kk -> if kk mod 2 = k mod 2 then Some (nat_of_int (10000 + 100 * nn + kk)) else None) [0; 1; 2; 3] in
+                push (Trace.TQueryAnswered aliases)
+              | None -> ())
+           | None -> ());
           let o = (match rest with
             | "get" :: c -> (match content_of c with Some d -> Trace.OGet d | None -> Trace.OErr (code_of "?"))
             | ["access"; g; call] -> Trace.OAccess (g = "1", chars_of_string (unhex call))
@@ -234,6 +261,7 @@ let vkind_name (k : Monitors.vkind) : string * string = match k with
   | Monitors.VRequestAfterClose -> ("C11", "request-on-behalf-of-closed-connection")
   | Monitors.VSpuriousRefetch -> ("C12", "refetch-without-matching-reset")
   | Monitors.VMissedRefetch -> ("C12", "matching-resource-not-refetched")
+  | Monitors.VQueryRequests -> ("C13", "query-requests-not-one-per-variant")
 
 let akind_name (k : AccessMon.akind) : string * string = match k with
   | AccessMon.AUngrantedRead -> ("C04", "data-without-valid-get-grant")
